@@ -42,11 +42,10 @@ func NewResponse(stdr *http.Response) (r *Response, err error)
   ensures default-is-200: stdr == nil ==> fresh(r.Response) && r.Response.StatusCode == 200 && r.Response.Header != nil
 
 func NewRequest(stdr *http.Request) (r *Request, err error)
-  trusted
   flag allocates
-  pure
   ensures err == nil && r != nil && fresh(r) && r.stream == nil && len(r.payload) == 0
   ensures stdr != nil ==> r.Request == stdr
+  ensures the-client-address-is-realips-answer-for-this-request: stdr != nil ==> r.realIP == realipOf(ref(stdr))
 
 func (r *Request) MetaSize() (n int)
   trusted
